@@ -259,6 +259,40 @@ def make_archive(case, seed=0):
     raise ValueError(case["kind"])
 
 
+class Decoy:
+    """A second, differently configured archive that lives next to the one under test and is used between its calls:
+    other learning rate / threshold_min / offset / precision, and extra fields of the SAME names with other dtype
+    kinds and shapes.  Nothing an archive does may depend on another archive of the process (settings kept in a class
+    attribute or a module-level cache show up as soon as two archives are alive at once -- the usual CMA-MAE set-up
+    has an archive and a differently configured result archive)."""
+
+    SWAP = {"f": np.int32, "i": np.float64, "u": np.float32, "O": np.float64}
+
+    def __init__(self, case):
+        from ribs.archives import CVTArchive, GridArchive
+        self.fields = {EXTRA_DESC[c][0]: ((3,) if EXTRA_DESC[c][1] == () else (), self.SWAP[np.dtype(EXTRA_DESC[c][2]).kind])
+                       for c in case.get("layout", "")}
+        dt = np.float32 if case["dtype"] == "f64" else np.float64
+        lr = 0.25 if case.get("lr") is None or fr(case["lr"]) != F(1, 4) else 0.75
+        kw = dict(solution_dim=3, learning_rate=lr, threshold_min=-3.0, qd_score_offset=-1.5, dtype=dt,
+                  extra_fields=self.fields, seed=7)
+        if case["kind"] == "cvt":
+            self.a = GridArchive(dims=[3, 2], ranges=[(-1, 1), (-1, 1)], **kw)
+        else:
+            self.a = CVTArchive(cells=3, ranges=[(-1, 1), (-1, 1)], custom_centroids=[[-0.5, 0], [0.5, 0], [0, 0.7]], **kw)
+        self.n = 0
+
+    def poke(self):
+        """a retrieve that hits an empty cell and an occupied one, one add and one add_single"""
+        a, self.n = self.a, self.n + 1
+        ex = {name: np.zeros((2,) + shp, dtype=dt) + self.n for name, (shp, dt) in self.fields.items()}
+        a.add(np.full((2, 3), 0.5 * self.n), [1.0 * self.n, 2.0], [[-0.5, 0.1], [0.5, -0.1]], **ex)
+        a.add_single([0.0, 1.0, 2.0], 0.5 + self.n, [0.4, 0.0], **{k: v[0] for k, v in ex.items()})
+        a.retrieve([[0.0, 0.9], [-0.5, 0.0]])
+        a.retrieve_single([0.0, 0.9])
+        return a.stats.num_elites
+
+
 def model_new_line(case, archive):
     """`new` request built from the archive's *reported* geometry."""
     kind = case["kind"]
@@ -350,6 +384,10 @@ class Run:
         self.elitist = case.get("tmin") is None
         self.exact_thr = exact_thr
         self.archive = make_archive(case)
+        # constructed AFTER the archive under test and used between its calls (see Decoy)
+        self.decoy = Decoy(case) if case.get("case_index", 0) % 2 == 0 else None
+        if self.decoy is not None:
+            self.decoy.poke()
         self.drv = Driver("arch")
         # `rtol` (edge strata, grid only): half-width of the zone around a cell edge that the archive's floating
         # point cannot resolve -- there the model follows the implementation's choice if it is admissible (`pin`)
@@ -922,6 +960,8 @@ class Run:
                 where = f"op#{k} {op['op']}"
                 kind = op["op"]
                 f = None
+                if self.decoy is not None and k in (1, 4):
+                    self.decoy.poke()
                 if kind == "add" and self.case["kind"] == "sb":
                     # SlidingBoundariesArchive.add is documented as a loop of add_single in batch order
                     tw = copy.deepcopy(self.archive)
